@@ -4,6 +4,7 @@
 package yodasim
 
 import (
+	"crypto/sha256"
 	"context"
 	"runtime"
 	"strconv"
@@ -162,6 +163,11 @@ func (r *rpcStub) ABCIQuery(_ context.Context, path string, data cmtbytes.HexByt
 	return &coretypes.ResultABCIQuery{Response: abci.ResponseQuery{Value: r.table[key]}}, nil
 }
 
+func execTag(exec []byte) []byte {
+	h := sha256.Sum256(exec)
+	return []byte(fmt.Sprintf("#%x", h[:4]))
+}
+
 type execOutcome struct {
 	Kind   string // ok, nonzero, error, slow
 	Code   uint32
@@ -195,7 +201,8 @@ func (x *execStub) Exec(exec []byte, arg string, env interface{}) (executor.Exec
 	case "nonzero":
 		x.st.Fault("executor_nonzero_exit")
 	}
-	return executor.ExecResult{Output: o.Output, Code: o.Code, Version: "v1"}, nil
+	// the output names the executable that was actually run
+	return executor.ExecResult{Output: append(append([]byte{}, o.Output...), execTag(exec)...), Code: o.Code, Version: "v1"}, nil
 }
 
 // ---------------------------------------------------------------------------------------------
@@ -206,6 +213,7 @@ type reqInfo struct {
 	Stored   oracletypes.Request
 	Tx       abci.TxResult
 	FetchBad map[uint64]bool // external id -> executable cannot be fetched
+	Exec     map[uint64][]byte // external id -> the executable its data source has while the request is handled
 }
 
 // RunOne: chain part outside the bubble, daemon part inside.
@@ -286,73 +294,133 @@ func RunOne(o core.RunOpts) (res *core.RunResult) {
 	}
 	w.NextBlock(world.BlockOpts{})
 	w.NextBlock(world.BlockOpts{})
-	nreq := 1 + ch.Intn("cfg.nreq", 4)
-	for i := 0; i < nreq; i++ {
-		n := 1 + ch.Intn("req.nraw", 8)
-		ids := make([]int64, n)
-		for k := range ids {
-			ids[k] = int64(1 + ch.Intn("req.ds", nds))
-		}
-		ask := uint64(1 + ch.Intn("req.ask", nv))
-		calldata := obi.MustEncode(testdata.Wasm4Input{IDs: ids, Calldata: fmt.Sprintf("cd%d", i)})
-		msg := oracletypes.NewMsgRequestData(oracletypes.OracleScriptID(chainsim.ScriptEcho), calldata, ask, 1, fmt.Sprintf("c%d", i), sdk.NewCoins(), 1_000_000, 3_000_000, w.Users[0].Addr, oracletypes.ENCODER_UNSPECIFIED)
-		w.Submit(&world.Intent{Signer: w.Users[0], Msgs: []sdk.Msg{msg}, Tag: "request"})
-	}
-	var reqs []*reqInfo
 	me := w.Vals[0]
-	for b := 0; b < 2; b++ {
-		blk := w.NextBlock(world.BlockOpts{})
-		if w.Halt != nil {
-			res.Err = "chain halted during setup: " + w.Halt.Err
-			return res
-		}
-		ctx := w.ReadCtx()
-		for _, tx := range blk.Txs {
-			if tx.Intent.Tag != "request" || !tx.OK() {
-				continue
+	// createBatch submits n data requests and returns those the chain accepted
+	nAll := 0
+	createBatch := func(n int, forceDS int64) []*reqInfo {
+		for i := 0; i < n; i++ {
+			k := 1 + ch.Intn("req.nraw", 8)
+			ids := make([]int64, k)
+			for j := range ids {
+				ids[j] = int64(1 + ch.Intn("req.ds", nds))
 			}
-			for _, ev := range chainsim.EventsOfType(chainsim.ParseEvents(tx.Result.Events), oracletypes.EventTypeRequest) {
-				id := ev.U64(oracletypes.AttributeKeyID)
-				stored, err := w.Primary().OracleKeeper.GetRequest(ctx, oracletypes.RequestID(id))
-				if err != nil {
+			if forceDS > 0 {
+				ids[ch.Intn("req.forceds", k)] = forceDS
+			}
+			ask := uint64(1 + ch.Intn("req.ask", nv))
+			calldata := obi.MustEncode(testdata.Wasm4Input{IDs: ids, Calldata: fmt.Sprintf("cd%d", nAll)})
+			msg := oracletypes.NewMsgRequestData(oracletypes.OracleScriptID(chainsim.ScriptEcho), calldata, ask, 1, fmt.Sprintf("c%d", nAll), sdk.NewCoins(), 1_000_000, 3_000_000, w.Users[0].Addr, oracletypes.ENCODER_UNSPECIFIED)
+			w.Submit(&world.Intent{Signer: w.Users[0], Msgs: []sdk.Msg{msg}, Tag: "request"})
+			nAll++
+		}
+		var out []*reqInfo
+		for b := 0; b < 2; b++ {
+			blk := w.NextBlock(world.BlockOpts{})
+			if w.Halt != nil {
+				return out
+			}
+			ctx := w.ReadCtx()
+			for _, tx := range blk.Txs {
+				if tx.Intent.Tag != "request" || !tx.OK() {
 					continue
 				}
-				ri := &reqInfo{ID: id, Stored: stored, Tx: abci.TxResult{Height: blk.Height, Index: uint32(tx.Index), Tx: tx.Bytes, Result: *tx.Result}, FetchBad: map[uint64]bool{}}
-				for _, v := range stored.RequestedValidators {
-					if v == me.Val.String() {
-						ri.Chosen = true
+				for _, ev := range chainsim.EventsOfType(chainsim.ParseEvents(tx.Result.Events), oracletypes.EventTypeRequest) {
+					id := ev.U64(oracletypes.AttributeKeyID)
+					stored, err := w.Primary().OracleKeeper.GetRequest(ctx, oracletypes.RequestID(id))
+					if err != nil {
+						continue
+					}
+					ri := &reqInfo{ID: id, Stored: stored, Tx: abci.TxResult{Height: blk.Height, Index: uint32(tx.Index), Tx: tx.Bytes, Result: *tx.Result}, FetchBad: map[uint64]bool{}, Exec: map[uint64][]byte{}}
+					for _, v := range stored.RequestedValidators {
+						if v == me.Val.String() {
+							ri.Chosen = true
+						}
+					}
+					out = append(out, ri)
+				}
+			}
+		}
+		return out
+	}
+	reqs := createBatch(1+ch.Intn("cfg.nreq", 4), 0)
+	if w.Halt != nil {
+		res.Err = "chain halted during setup: " + w.Halt.Err
+		return res
+	}
+	// query table the stub node answers from (computed with the real application at the time the batch exists)
+	app := w.Primary()
+	storePath := fmt.Sprintf("/store/%s/key", oracletypes.StoreKey)
+	dsHash := map[uint64]string{}
+	curExec := map[uint64][]byte{}
+	for i, ex := range execs {
+		curExec[uint64(i+1)] = ex
+	}
+	buildTable := func(batch []*reqInfo, into map[string][]byte) {
+		q := func(path string, data []byte) {
+			r, err := app.Query(context.Background(), &abci.RequestQuery{Path: path, Data: data})
+			if err == nil {
+				into[path+"|"+string(data)] = r.Value
+			}
+		}
+		for _, ri := range batch {
+			q(storePath, oracletypes.RequestStoreKey(oracletypes.RequestID(ri.ID)))
+			for _, rr := range ri.Stored.RawRequests {
+				q(storePath, oracletypes.DataSourceStoreKey(rr.DataSourceID))
+				ds, err := app.OracleKeeper.GetDataSource(w.ReadCtx(), rr.DataSourceID)
+				if err == nil {
+					dsHash[uint64(rr.DataSourceID)] = ds.Filename
+					bz := app.AppCodec().MustMarshal(&oracletypes.QueryDataRequest{DataHash: ds.Filename})
+					q("/band.oracle.v1.Query/Data", bz)
+				}
+				// the executable the data source has while this batch is handled
+				ri.Exec[uint64(rr.ExternalID)] = curExec[uint64(rr.DataSourceID)]
+			}
+		}
+	}
+	table := map[string][]byte{}
+	buildTable(reqs, table)
+	// optional second phase: the owner replaces the executable of a data source the first batch used, then new requests use it
+	var reqs2 []*reqInfo
+	var table2 map[string][]byte
+	editedDS := uint64(0)
+	if len(reqs) > 0 && ch.Bool("cfg.editphase", 250) {
+		r0 := reqs[ch.Intn("edit.req", len(reqs))]
+		dsid := r0.Stored.RawRequests[ch.Intn("edit.raw", len(r0.Stored.RawRequests))].DataSourceID
+		newExec := []byte(strings.Repeat("Z", 3+ch.Intn("edit.len", 60)) + fmt.Sprint(dsid))
+		ds, _ := app.OracleKeeper.GetDataSource(w.ReadCtx(), dsid)
+		edit := oracletypes.NewMsgEditDataSource(dsid, ds.Name, ds.Description, newExec, ds.Fee, sdk.MustAccAddressFromBech32(ds.Treasury), w.Users[0].Addr, w.Users[0].Addr)
+		w.Submit(&world.Intent{Signer: w.Users[0], Msgs: []sdk.Msg{edit}, Tag: "edit_data_source", Gas: 2_000_000})
+		blk := w.NextBlock(world.BlockOpts{})
+		edited := false
+		for _, tx := range blk.Txs {
+			if tx.Intent.Tag == "edit_data_source" && tx.OK() {
+				edited = true
+			}
+		}
+		if edited {
+			curExec[uint64(dsid)] = newExec
+			editedDS = uint64(dsid)
+			st.Fault("data_source_executable_replaced_between_requests")
+			reqs2 = createBatch(1+ch.Intn("cfg.nreq2", 2), int64(dsid))
+			table2 = map[string][]byte{}
+			for k, v := range table {
+				table2[k] = v
+			}
+			buildTable(reqs2, table2)
+			buildTable(reqs, map[string][]byte{}) // no-op for the table; keeps batch 1 expectations at the OLD executable
+			for _, ri := range reqs {
+				for _, rr := range ri.Stored.RawRequests {
+					if rr.DataSourceID == dsid {
+						ri.Exec[uint64(rr.ExternalID)] = execs[int(dsid)-1]
 					}
 				}
-				reqs = append(reqs, ri)
 			}
 		}
 	}
 	if len(reqs) == 0 {
 		return res
 	}
-	// query table the stub node answers from (computed with the real application)
-	app := w.Primary()
-	table := map[string][]byte{}
-	q := func(path string, data []byte) {
-		r, err := app.Query(context.Background(), &abci.RequestQuery{Path: path, Data: data})
-		if err == nil {
-			table[path+"|"+string(data)] = r.Value
-		}
-	}
-	storePath := fmt.Sprintf("/store/%s/key", oracletypes.StoreKey)
-	dsHash := map[uint64]string{}
-	for _, ri := range reqs {
-		q(storePath, oracletypes.RequestStoreKey(oracletypes.RequestID(ri.ID)))
-		for _, rr := range ri.Stored.RawRequests {
-			q(storePath, oracletypes.DataSourceStoreKey(rr.DataSourceID))
-			ds, err := app.OracleKeeper.GetDataSource(w.ReadCtx(), rr.DataSourceID)
-			if err == nil {
-				dsHash[uint64(rr.DataSourceID)] = ds.Filename
-				bz := app.AppCodec().MustMarshal(&oracletypes.QueryDataRequest{DataHash: ds.Filename})
-				q("/band.oracle.v1.Query/Data", bz)
-			}
-		}
-	}
+	allReqs := append(append([]*reqInfo{}, reqs...), reqs2...)
 
 	// ---- daemon part, inside the bubble ------------------------------------------------------
 	maxTry := uint64(2 + ch.Intn("cfg.maxtry", 4))
@@ -361,7 +429,7 @@ func RunOne(o core.RunOpts) (res *core.RunResult) {
 	ex := &execStub{s: s, plan: map[string]execOutcome{}, calls: map[string]int{}, st: st}
 	faulty := ch.Bool("cfg.faults", 700)
 	// fault plan
-	for _, ri := range reqs {
+	for _, ri := range allReqs {
 		for _, rr := range ri.Stored.RawRequests {
 			key := fmt.Sprintf("%d/%d", ri.ID, rr.ExternalID)
 			o := execOutcome{Kind: "ok", Code: 0, Output: []byte(fmt.Sprintf("out-%d-%d", ri.ID, rr.ExternalID))}
@@ -379,7 +447,11 @@ func RunOne(o core.RunOpts) (res *core.RunResult) {
 		}
 	}
 	if faulty {
-		for _, k := range core.SortedKeys(table) {
+		keysFrom := table
+		if table2 != nil {
+			keysFrom = table2
+		}
+		for _, k := range core.SortedKeys(keysFrom) {
 			if ch.Bool("rpc.transient", 200) {
 				rpc.fails[k] = 1 + ch.Intn("rpc.transient.n", int(maxTry)-1) // fewer than maxTry in a row
 			}
@@ -395,10 +467,13 @@ func RunOne(o core.RunOpts) (res *core.RunResult) {
 		sort.Slice(dsIDs, func(i, j int) bool { return dsIDs[i] < dsIDs[j] })
 		for _, id := range dsIDs {
 			h := dsHash[id]
+			if id == editedDS {
+				continue // two different files in the two phases: keep the fetch expectations simple for this one
+			}
 			if ch.Bool("rpc.persist.exec", 120) {
 				bz := app.AppCodec().MustMarshal(&oracletypes.QueryDataRequest{DataHash: h})
 				rpc.persist["/band.oracle.v1.Query/Data|"+string(bz)] = true
-				for _, ri := range reqs {
+				for _, ri := range allReqs {
 					for _, rr := range ri.Stored.RawRequests {
 						if uint64(rr.DataSourceID) == id {
 							ri.FetchBad[uint64(rr.ExternalID)] = true
@@ -441,32 +516,43 @@ func RunOne(o core.RunOpts) (res *core.RunResult) {
 					}
 				}
 			}()
-			for _, i := range ch.Perm("start.order", len(reqs)) {
-				ri := reqs[i]
-				switch ch.Weighted("start.how", []int{70, 10, 10, 10}) {
-				case 0:
-					go yc.VerifHandleTransaction(ri.Tx)
-				case 1:
-					// a caller of the request handler that did not go through the pending list
-					go yc.VerifHandleRequest(oracletypes.RequestID(ri.ID))
-				case 2:
-					// the request was already open when the daemon started: marked pending, then handled
-					st.Fault("request_pending_at_daemon_start")
-					go yc.VerifStartupPending(oracletypes.RequestID(ri.ID))
-				case 3:
-					// ... and its transaction event is also delivered (the node replays it): still exactly one report
-					st.Fault("request_pending_at_daemon_start")
-					st.Fault("transaction_event_of_a_pending_request")
-					go yc.VerifStartupPending(oracletypes.RequestID(ri.ID))
-					s.run(1)
-					go yc.VerifHandleTransaction(ri.Tx)
-				}
-				if ch.Bool("start.gap", 300) {
-					s.run(1)
+			deliver := func(batch []*reqInfo, label string) {
+				for _, i := range ch.Perm(label+".order", len(batch)) {
+					ri := batch[i]
+					switch ch.Weighted(label+".how", []int{70, 10, 10, 10}) {
+					case 0:
+						go yc.VerifHandleTransaction(ri.Tx)
+					case 1:
+						// a caller of the request handler that did not go through the pending list
+						go yc.VerifHandleRequest(oracletypes.RequestID(ri.ID))
+					case 2:
+						// the request was already open when the daemon started: marked pending, then handled
+						st.Fault("request_pending_at_daemon_start")
+						go yc.VerifStartupPending(oracletypes.RequestID(ri.ID))
+					case 3:
+						// ... and its transaction event is also delivered (the node replays it): still exactly one report
+						st.Fault("request_pending_at_daemon_start")
+						st.Fault("transaction_event_of_a_pending_request")
+						go yc.VerifStartupPending(oracletypes.RequestID(ri.ID))
+						s.run(1)
+						go yc.VerifHandleTransaction(ri.Tx)
+					}
+					if ch.Bool(label+".gap", 300) {
+						s.run(1)
+					}
 				}
 			}
+			deliver(reqs, "start")
 			t0 := time.Now()
 			s.run(int(maxTry)*2 + 45)
+			if len(reqs2) > 0 {
+				// the first batch is done; from now on the node answers from the state after the edit
+				rpc.mu.Lock()
+				rpc.table = table2
+				rpc.mu.Unlock()
+				deliver(reqs2, "phase2")
+				s.run(int(maxTry)*2 + 45)
+			}
 			simSeconds = time.Since(t0).Seconds()
 			close(done)
 		})
@@ -481,7 +567,7 @@ func RunOne(o core.RunOpts) (res *core.RunResult) {
 		byReq[uint64(m.RequestID)] = append(byReq[uint64(m.RequestID)], m)
 	}
 	nConc, nExecFail := 0, 0
-	for _, ri := range reqs {
+	for _, ri := range allReqs {
 		msgs := byReq[ri.ID]
 		if !ri.Chosen {
 			if len(msgs) != 0 {
@@ -522,8 +608,9 @@ func RunOne(o core.RunOpts) (res *core.RunResult) {
 					fail("exit_code_on_failure", "", "request %d external id %d: data source could not be fetched/run but exit code is %d (expected 255)", ri.ID, eid, r.ExitCode)
 				}
 			default:
-				if r.ExitCode != o.Code || string(r.Data) != string(o.Output) {
-					fail("raw_report_content", "", "request %d external id %d: report carries exit code %d data %q, executor returned %d %q", ri.ID, eid, r.ExitCode, r.Data, o.Code, o.Output)
+				wantOut := string(o.Output) + string(execTag(ri.Exec[eid]))
+				if r.ExitCode != o.Code || string(r.Data) != wantOut {
+					fail("raw_report_content", "", "request %d external id %d: report carries exit code %d data %q; running the data source's current executable gives %d %q", ri.ID, eid, r.ExitCode, r.Data, o.Code, wantOut)
 				}
 			}
 		}
@@ -552,7 +639,7 @@ func RunOne(o core.RunOpts) (res *core.RunResult) {
 	}
 	res.SimSeconds = simSeconds
 	st.Trace("order:" + core.Mix64Str(strings.Join(s.seq, ",")))
-	st.ProbeN("c19_requests", len(reqs))
+	st.ProbeN("c19_requests", len(allReqs))
 	st.ProbeN("c19_reports_checked", len(got))
 	st.ProbeN("c19_exec_or_fetch_failures", nExecFail)
 	st.ProbeN("c19_release_choices", s.orders)
